@@ -16,6 +16,11 @@ CLAIMED = {
             "Seeded search over (seed image x 0-4 stored-image faults x source fault plan x clock jump) with the reader run under strict/default/tolerant/skip_errors on fresh threads in worker processes; oracles: no panic (overflow checks on), no process death (stack overflow, abort), bounded I/O steps, bounded CPU time, bounded single and live allocations. Every violation is re-executed in a fresh child process and minimised (mutation list, then byte ranges) before it is reported.",
             "Thresholds standing for 'unbounded' are 120 s CPU, 1 GiB single allocation, 2 GiB live heap, 2e6 + 200 x length I/O calls. Images are small (<= 400 KiB). 'lenient' is an alias of 'tolerant' in the library.",
             "DESIGN.md §4 C01, §2"),
+    "C02": ("exploration",
+            "deterministic simulation: generated authoring programs written and read back through shortening byte seams under every writer configuration; fault-free baseline run and an independent reader as references",
+            "Seeded search over (authoring program x writer configuration x sink plan x source plan x reader preset). The view of the fault-free classic/uncompressed run is the reference (and is itself checked against the operator lines the authoring API reports); every other configuration, written through a sink that shortens writes and read through a source that shortens reads at every offset, must yield the identical view in the library's reader, and the independent reader must agree on page count, boxes, rotation, content bytes and images.",
+            "Transport part of C02 only (operator-level parse/serialise agreement is C21, a pure function). The independent reader is refpdf, written for this harness.",
+            "DESIGN.md §4 C02, §2.3"),
     "C03": ("exploration",
             "deterministic simulation: generated authoring programs written through a fault-injecting sink under every writer configuration; independent structural reader + strict parser as oracles",
             "Seeded search over (authoring program with delimiter-laden names and text x writer configuration x optional encryption x sink fault plan). The image left on the simulated disk is checked by refpdf, an independent structural reader (exact xref offsets, /Size, stream /Length, reference resolution, strict token grammar, object-stream slots), and by the library's strict parser with every page walked. Through a failing sink the writer must return Err or leave a complete valid file; through a merely shortening sink it must succeed with identical bytes.",
